@@ -1,9 +1,7 @@
 // Package efx: origins (which abstract memory region a reference may denote),
 // effects (which parameter-/global-rooted regions a function may read or
-// write, transitively), reference stores (sharing) and the rules built on
-// them (operands intact, read-only, Set/Clone independence, Equal read set,
-// receiver returned). Flow-insensitive inside a function, summary-based and
-// bottom-up across functions; over-approximates writes and sharing.
+// write, transitively), reference stores (sharing), aliasing hazards, and the
+// rules built on them. Over-approximates writes and sharing.
 package efx
 
 import (
@@ -15,37 +13,51 @@ import (
 //
 //	roots:      P<i> (object denoted by parameter i), G:<name> (global),
 //	            F:<site> (allocated in the function), R<k> (fresh object
-//	            returned as result k, in summaries), U (unknown)
-//	selectors:  .f (field)   * (pointee of a stored reference)   [] (element)
+//	            returned as result k, in summaries)
+//	selectors:  .f (field)   * (pointee of a stored reference)
+//	            [] (any element)   [k] (element at constant index k)
 //
 // A path ending in "…" stands for everything below it.
 type Path string
 
-const maxSel = 6
+const maxSel = 7
 
-func (p Path) Root() string {
+// split returns the root and the selector list (a trailing "…" is its own item).
+func (p Path) split() (string, []string) {
 	s := string(p)
-	for i := 0; i < len(s); i++ {
-		switch s[i] {
-		case '.', '*', '[':
-			return s[:i]
-		}
-		if strings.HasPrefix(s[i:], "…") {
-			return s[:i]
+	i := 0
+	for i < len(s) && s[i] != '.' && s[i] != '*' && s[i] != '[' && !strings.HasPrefix(s[i:], "…") {
+		i++
+	}
+	root := s[:i]
+	var sels []string
+	for i < len(s) {
+		switch {
+		case strings.HasPrefix(s[i:], "…"):
+			sels = append(sels, "…")
+			i += len("…")
+		case s[i] == '*':
+			sels = append(sels, "*")
+			i++
+		case s[i] == '[':
+			j := strings.IndexByte(s[i:], ']')
+			sels = append(sels, s[i:i+j+1])
+			i += j + 1
+		default: // '.'
+			j := i + 1
+			for j < len(s) && s[j] != '.' && s[j] != '*' && s[j] != '[' && !strings.HasPrefix(s[j:], "…") {
+				j++
+			}
+			sels = append(sels, s[i:j])
+			i = j
 		}
 	}
-	return s
+	return root, sels
 }
 
-func (p Path) nsel() int {
-	n := 0
-	for _, c := range string(p) {
-		if c == '.' || c == '*' || c == '[' {
-			n++
-		}
-	}
-	return n
-}
+func (p Path) Root() string { r, _ := p.split(); return r }
+
+func (p Path) nsel() int { _, s := p.split(); return len(s) }
 
 func (p Path) Ext(sel string) Path {
 	if strings.HasSuffix(string(p), "…") {
@@ -62,48 +74,82 @@ func (p Path) Sel() string { return string(p)[len(p.Root()):] }
 
 // Rebase replaces the root of p by the path q.
 func (p Path) Rebase(q Path) Path {
+	_, sels := p.split()
 	out := q
-	sel := p.Sel()
-	// split sel into selectors
-	for len(sel) > 0 {
-		if strings.HasPrefix(sel, "…") {
+	for _, s := range sels {
+		if s == "…" {
 			if !strings.HasSuffix(string(out), "…") {
 				out += "…"
 			}
 			break
 		}
-		j := 1
-		if sel[0] == '[' {
-			j = 2
-		} else if sel[0] == '.' {
-			for j < len(sel) && sel[j] != '.' && sel[j] != '*' && sel[j] != '[' && !strings.HasPrefix(sel[j:], "…") {
-				j++
-			}
-		}
-		out = out.Ext(sel[:j])
-		sel = sel[j:]
+		out = out.Ext(s)
 	}
 	return out
 }
 
-func isBoundary(s string) bool {
-	return s == "" || s[0] == '.' || s[0] == '*' || s[0] == '[' || strings.HasPrefix(s, "…")
+func selMatch(a, b string) bool {
+	if a == b {
+		return true
+	}
+	if len(a) > 0 && a[0] == '[' && len(b) > 0 && b[0] == '[' {
+		return a == "[]" || b == "[]"
+	}
+	return false
+}
+
+// prefixOf: is x (selector list) a prefix of y, with [] as wildcard and "…" as "anything below"?
+func prefixOf(x, y []string) bool {
+	for i, s := range x {
+		if s == "…" {
+			return true
+		}
+		if i >= len(y) {
+			return false
+		}
+		if y[i] == "…" {
+			return true
+		}
+		if !selMatch(s, y[i]) {
+			return false
+		}
+	}
+	return true
 }
 
 // Overlap reports whether the two regions may share memory (one is a prefix
-// of the other).
+// of the other, element selectors compared with [] as wildcard).
 func Overlap(a, b Path) bool {
-	x, y := strings.TrimSuffix(string(a), "…"), strings.TrimSuffix(string(b), "…")
-	if len(x) > len(y) {
-		x, y = y, x
+	ra, sa := a.split()
+	rb, sb := b.split()
+	if ra != rb {
+		return false
 	}
-	return strings.HasPrefix(y, x) && isBoundary(y[len(x):])
+	return prefixOf(sa, sb) || prefixOf(sb, sa)
 }
 
 // Under reports whether a lies within region b (b is a prefix of a).
 func Under(a, b Path) bool {
-	x, y := strings.TrimSuffix(string(b), "…"), strings.TrimSuffix(string(a), "…")
-	return strings.HasPrefix(y, x) && isBoundary(y[len(x):])
+	ra, sa := a.split()
+	rb, sb := b.split()
+	if ra != rb {
+		return false
+	}
+	return prefixOf(sb, sa)
+}
+
+// RelTo returns the selectors of a below b (a must be Under b).
+func (a Path) RelTo(b Path) []string {
+	_, sa := a.split()
+	_, sb := b.split()
+	n := len(sb)
+	if n > 0 && sb[n-1] == "…" {
+		n--
+	}
+	if n > len(sa) {
+		return nil
+	}
+	return sa[n:]
 }
 
 type PathSet map[Path]bool
@@ -136,4 +182,6 @@ func (s PathSet) Sorted() []string {
 // IsParamRoot / IsGlobalRoot classify roots.
 func IsParamRoot(r string) bool  { return len(r) > 1 && r[0] == 'P' && r[1] >= '0' && r[1] <= '9' }
 func IsGlobalRoot(r string) bool { return strings.HasPrefix(r, "G:") }
-func IsFreshRoot(r string) bool  { return strings.HasPrefix(r, "F:") || (len(r) > 1 && r[0] == 'R' && r[1] >= '0' && r[1] <= '9') }
+func IsFreshRoot(r string) bool {
+	return strings.HasPrefix(r, "F:") || (len(r) > 1 && r[0] == 'R' && r[1] >= '0' && r[1] <= '9')
+}
